@@ -49,8 +49,12 @@ var (
 	c17ShortDurs = []string{"1s", "1500ms", "2s", "5s", "30s", "4h"} // ascending
 	c17Prefixes  = []string{"2001:db8:1::/64", "2001:db8:2::/64", "fd00:1::/64", "2001:db8:30::/60", "fd00:2:3::/48"}
 	c17Routes    = []string{"2001:db8:ffff::/64", "fd00:ffff::/48", "2001:db8:aaaa::/56", "2001:db8:bbbb:1::1/128"}
-	c17Servers   = []string{"2001:db8::1", "2001:db8::2", "fd00::53", "2001:4860:4860::8888"}
-	c17Domains   = []string{"example.com", "foo.example.com", "lan", "corp.example.net"}
+	// (full-length addresses and long names: label values of well over 128 bytes are ordinary)
+	c17Servers = []string{"2001:db8::1", "2001:db8::2", "fd00::53", "2001:4860:4860::8888",
+		"2001:db8:1111:2222:3333:4444:5555:6666", "2001:db8:1111:2222:3333:4444:5555:7777", "fd00:aaaa:bbbb:cccc:dddd:eeee:ffff:1234"}
+	c17Domains = []string{"example.com", "foo.example.com", "lan", "corp.example.net",
+		"a-rather-long-department-name.building-seventeen.campus-north.corp.example.net",
+		"a-rather-long-department-name.building-seventeen.campus-south.corp.example.net"}
 	c17Pref64    = []string{"64:ff9b::/96", "2001:db8:64::/64", "2001:db8:6400::/56", "2001:db8::/32", ""}
 )
 
@@ -234,7 +238,7 @@ func c17Config(r *verifh.Rand) c17Gen {
 			default:
 				sp := append([]string(nil), c17Servers...)
 				verifh.Shuffle(r, sp)
-				sp = sp[:1+r.Intn(3)]
+				sp = sp[:1+r.Intn(5)]
 				if r.Chance(15) {
 					sp = append(sp, "::")
 					verifh.Shuffle(r, sp)
@@ -265,7 +269,7 @@ func c17Config(r *verifh.Rand) c17Gen {
 			} else {
 				dp := append([]string(nil), c17Domains...)
 				verifh.Shuffle(r, dp)
-				doms = "\"" + strings.Join(dp[:1+r.Intn(3)], "\", \"") + "\""
+				doms = "\"" + strings.Join(dp[:1+r.Intn(4)], "\", \"") + "\""
 			}
 			prevDomains = doms
 			fmt.Fprintf(&b, "  domain_names = [%s]\n", doms)
